@@ -18,6 +18,7 @@
 (declare-fun cadd (Int Int) Int) (declare-fun csub (Int Int) Int) (declare-fun cmul (Int Int) Int) (declare-fun cdiv (Int Int) Int)
 (declare-fun flt (Int Int) Bool) (declare-fun fle (Int Int) Bool) (declare-fun fgt (Int Int) Bool) (declare-fun fge (Int Int) Bool)
 (declare-fun round32 (Int) Int)
+(assert (forall ((c Int)) (! (= (round32 (constF32 c)) (constF32 c)) :pattern ((constF32 c)))))  ; a float32 value is a fixed point of rounding to float32
 
 (define-fun isSignedKind ((k Int)) Bool (and (>= k 2) (<= k 6)))
 (define-fun isUnsignedKind ((k Int)) Bool (and (>= k 7) (<= k 12)))
@@ -43,3 +44,7 @@
 (define-fun roundKind ((k Int) (x Int)) Int (ite (= k 13) (round32 x) x))
 (declare-fun constInt (Int) Int)   ; exact integer value of a go/constant value (after ToInt)
 (declare-fun croundKind (Int Int) Int)
+(declare-fun rvLen (Int) Int)
+(declare-fun rvSliceOp (Int Int Int) Int)        ; reflect.Value.Slice(i, j)
+(declare-fun rvSlice3Op (Int Int Int Int) Int)   ; reflect.Value.Slice3(i, j, k)
+(declare-fun arrayOf (Int Int) Int)              ; what genValueArray(node) yields in a frame (A2)
